@@ -20,7 +20,7 @@ func (C09) ID() string    { return "C09" }
 func (C09) Level() string { return "exploration" }
 func (C09) Runs(t core.Tier) int {
 	if t == core.Thorough {
-		return 3_000_000
+		return 2_500_000
 	}
 	return 60_000
 }
